@@ -231,8 +231,8 @@ func runC15(sc *Scenario, keepLog bool) *RunReport {
 func init() {
 	register(&Prop{
 		ID: "C15", Level: "exploration", Race: true,
-		Gen: func(seed uint64, tier string, idx int) *Scenario { return genC15(mixSeed(seed, uint64(idx))) },
-		Run: runC15,
+		Gen:       func(seed uint64, tier string, idx int) *Scenario { return genC15(mixSeed(seed, uint64(idx))) },
+		Run:       runC15,
 		QuickRuns: 16000, ThoroughS: 900,
 		Rule: "one run = 1..8 (occasionally 16..64) simulated caller goroutines issuing Pattern() calls and schema validations with pattern / patternProperties over a small alphabet of valid and invalid patterns chosen to collide under wrong cache keys, " +
 			"starting from a cold cache, under a seeded schedule with scheduling points before every atomic load/store and mutex operation of the regexp cache and every pool operation; oracle = regexp.Compile of that very pattern; built with -race. " +
